@@ -633,9 +633,10 @@ def contract(rec, index, qual, short, fn, recipe, seeds, rng, tier, limit) -> bo
     tmp = rec.tmp
     ok_any = False
     variants = recipe["variants"]
+    economical = tier == "quick" and recipe.get("cost") == "heavy"   # slow model: error / fault cases for the first seed only
     for vi, variant in enumerate(variants):
         per_seed = {}
-        for seed in seeds:
+        for si, seed in enumerate(seeds):
             case = {"function": qual, "variant": variant["label"], "kind": variant["kind"], "seed": seed,
                     "kwargs": {k: (v if isinstance(v, (int, float, str, bool, type(None))) else "...") for k, v in variant["kwargs"].items()}}
             priors = [(0, rng.randint(0, 2**31)), (2, rng.randint(0, 2**31))]
@@ -676,6 +677,8 @@ def contract(rec, index, qual, short, fn, recipe, seeds, rng, tier, limit) -> bo
             if a["seeded_sections"] == 0:
                 rec.count("model_calls_without_helper_section")
             per_seed[seed] = a["snap"]
+            if economical and si > 0:
+                continue
 
             # -- injected fault in the first draw inside a seeded section
             f = invoke(fn, variant, tmp, seed, (1, rng.randint(0, 2**31)), fault=True, limit=limit)
@@ -699,8 +702,8 @@ def contract(rec, index, qual, short, fn, recipe, seeds, rng, tier, limit) -> bo
                            f"{qual}(seed={seed}) returned with the generator changed: {describe_state_change(f['before'], f['after'])}", case, index)
 
             # -- errors provoked with invalid arguments / unprepared buckets
-            provocations = [("bad-args", o, True) for o in recipe.get("bad", [])]
-            if variant["buckets"]:
+            provocations = [("bad-args", o, True) for o in recipe.get("bad", [])[: 1 if economical else None]]
+            if variant["buckets"] and not economical:
                 provocations.append(("empty-buckets", {}, False))
             for label, overrides, prepared in provocations:
                 if "filename" in overrides and "filename" not in (variant.get("files") or {}):
@@ -726,6 +729,8 @@ def contract(rec, index, qual, short, fn, recipe, seeds, rng, tier, limit) -> bo
                            f"{describe_state_change(e['before'], e['after'])}", dict(case, provocation=label, overrides=shown), index)
 
             # -- seed=None: the call uses the global generator as it is (sanity, counted only)
+            if economical:
+                continue
             p = (1, rng.randint(0, 2**31))
             u1 = invoke(fn, variant, tmp, None, p, limit=limit)
             u2 = invoke(fn, variant, tmp, None, p, limit=limit)
@@ -1215,7 +1220,7 @@ def pulse_child(out_file, with_table, shape, charge, prior):
 
 def pulse_shard(spec, rec):
     tier = spec["tier"]
-    real_limit = 45 if tier == "quick" else 1500
+    real_limit = 30 if tier == "quick" else 1500
     env = dict(os.environ)
     jobs = []
     n_fast = spec["n"]
@@ -1281,15 +1286,14 @@ def finish_pulse(rec, i, arg, out, proc, limit):
 
 # =============================================================================== plan / dispatch
 def plan(tier, seed):
-    specs = []
-    parts = 7
-    for p in range(parts):
-        specs.append({"shard": p, "seed": seed, "kind": "models", "part": p, "of": parts, "n": 0, "tier": tier})
     q = tier == "quick"
+    specs = [{"shard": 15, "seed": seed, "kind": "pulse", "n": 1 if q else 4, "tier": tier}]   # slowest first
+    parts = 7
+    for p in (3, 0, 1, 2, 4, 5, 6):
+        specs.append({"shard": p, "seed": seed, "kind": "models", "part": p, "of": parts, "n": 0, "tier": tier})
     specs += [{"shard": 7 + s, "seed": seed, "kind": "exposure", "n": 6 if q else 150, "tier": tier} for s in range(2)]
     specs += [{"shard": 9 + s, "seed": seed, "kind": "observation", "n": 2 if q else 30, "tier": tier} for s in range(3)]
     specs += [{"shard": 12 + s, "seed": seed, "kind": "calibration", "n": 1 if q else 14, "tier": tier} for s in range(3)]
-    specs.append({"shard": 15, "seed": seed, "kind": "pulse", "n": 1 if q else 4, "tier": tier})
     return specs
 
 
